@@ -87,7 +87,7 @@ func (e *c17Env) Close() {
 }
 
 func runC17(r *vc.Run, replay string) {
-	r.Rule = "cases = statements (INSERT / UPDATE / DELETE, bound arguments) through the XA proxy inside a global transaction, in autocommit mode or in an explicit local transaction with 1..3 statements, 1..2 branches per global transaction, server versions 5.7.36 and 8.0.32, business outcome commit / rollback, phase two on the holding process or on a process that never saw phase one (8.0.32), and a failure {error, connection lost} injected at XA START, at the business statement, at XA END, at XA PREPARE, or a refused registration; verdicts over the XA commands of the database journal grouped by branch identifier: legal sequence START, statements, END, PREPARE, exactly one successful COMMIT or ROLLBACK; identifier determined by (xid, branch id) and reused by phase two; BranchRegister before XA START; a failure before a successful PREPARE is returned to the caller, ends in a rolled-back branch and is never followed by COMMIT; Committed/Rollbacked answers match the durable data; no branch left dangling; distinct_nontrivial = distinct (mode, statements, fault, outcome, phase-two site, version) signatures with a registered branch"
+	r.Rule = "cases = statements (INSERT / UPDATE / DELETE, bound arguments) through the XA proxy inside a global transaction, in autocommit mode or in an explicit local transaction with 1..3 statements, 1..2 branches per global transaction, server versions 5.7.36 and 8.0.32, business outcome commit / rollback, phase two on the holding process or on a process that never saw phase one (both versions), and a failure {error, connection lost} injected at XA START, at the business statement, at XA END, at XA PREPARE, or a refused registration; verdicts over the XA commands of the database journal grouped by branch identifier: legal sequence START, statements, END, PREPARE, exactly one successful COMMIT or ROLLBACK; identifier determined by (xid, branch id) and reused by phase two; BranchRegister before XA START; a failure before a successful PREPARE is returned to the caller, ends in a rolled-back branch and is never followed by COMMIT; Committed/Rollbacked answers match the durable data; no branch left dangling; distinct_nontrivial = distinct (mode, statements, fault, outcome, phase-two site, version) signatures with a registered branch"
 	r.Assumptions = []string{"a PREPARE that was executed but whose reply was lost is neither 'a failure before a successful prepare' nor a success the client knows of: no verdict on what becomes of that branch", "two branches of one global transaction work on different tables (separate XA branches cannot see each other's row locks)", "branches reported PhaseOne_Failed get no phase-two request (as the coordinator does)", "the fake database implements the MySQL XA state machine: commands out of order fail with XAER_RMFAIL / XAER_NOTA, a disconnect rolls back a branch that is not PREPARED and detaches a PREPARED one", "XA COMMIT / ROLLBACK of a PREPARED branch from another connection is accepted for both versions (the client decides by the version it reads)"}
 	n := 600
 	if r.Tier == "thorough" {
@@ -108,7 +108,7 @@ func runC17(r *vc.Run, replay string) {
 }
 
 func c17Batch(r *vc.Run, bi int, ver string, n int) {
-	e, err := newC17Env(r, fmt.Sprintf("c17-%d", bi), ver, ver >= "8.0.29")
+	e, err := newC17Env(r, fmt.Sprintf("c17-%d", bi), ver, true)
 	if err != nil {
 		r.Errorf("%v", err)
 		return
@@ -120,7 +120,7 @@ func c17Batch(r *vc.Run, bi int, ver string, n int) {
 		if !c17Run(r, e, c) {
 			// the client died: restart it so that the remaining cases run
 			e.Close()
-			e, err = newC17Env(r, fmt.Sprintf("c17-%d-r%d", bi, i), ver, ver >= "8.0.29")
+			e, err = newC17Env(r, fmt.Sprintf("c17-%d-r%d", bi, i), ver, true)
 			if err != nil {
 				r.Errorf("%v", err)
 				return
@@ -174,7 +174,9 @@ func c17Gen(r *vc.Rand, name, ver string, hasSecond bool) *c17Case {
 		c.Fault = []string{"db-error", "drop-before", "drop-after"}[r.Intn(3)] + "@" + []string{"XA_START", "DML", "XA_END", "XA_PREPARE"}[r.Intn(4)]
 	}
 	c.P2On = "holder"
-	if hasSecond && r.Intn(3) == 0 {
+	// on servers that make the client keep the phase-one connection, a kept connection is only given up after the
+	// hold time: fewer such cases, or the small pool of the holder runs dry
+	if hasSecond && ((ver >= "8.0.29" && r.Intn(3) == 0) || (ver < "8.0.29" && r.Intn(10) == 0)) {
 		c.P2On = "other-process"
 	}
 	sort.Strings(kinds)
